@@ -32,6 +32,15 @@ struct RegRefIf<false, T> {
   static void go(std::vector<TypeOps>&) {}
 };
 #define REGREF(...) RegRefIf<(__COUNTER__ % NSHARDS) == SHARD, __VA_ARGS__>::go(l);
+template <bool On, class T>
+struct RegUBIf {
+  static void go(std::vector<TypeOps>& l) { l.push_back(make_ops<T, UBHolder<T>>()); }
+};
+template <class T>
+struct RegUBIf<false, T> {
+  static void go(std::vector<TypeOps>&) {}
+};
+#define REGUB(...) RegUBIf<(__COUNTER__ % NSHARDS) == SHARD, __VA_ARGS__>::go(l);
 #ifdef THOROUGH
 #define REGT(...) REGQ(__VA_ARGS__)
 #else
@@ -65,6 +74,8 @@ inline void register_universe(std::vector<TypeOps>& l) {
   // std::reference_wrapper<T>: the library is handed the wrapper, the referent lives next to it
   REGREF(i32) REGREF(u64) REGREF(string) REGREF(float) REGREF(vector<u8>) REGREF(vector<string>) REGREF(S2<u8, string>)
   REGREF(T2<u8, string>) REGREF(Optional<i32>) REGREF(map<i32, string>)
+  // structures tagged NOP_UNBOUNDED_BUFFER (excluded from the hostile-input checks, as C02 states)
+  REGUB(UB<u8>) REGUB(UB<u32>) REGUB(UB<float>) REGUB(UB<pair<char, char>>)
   // ---------------------------------------------------------------- D1: vectors
   REGQ(vector<u8>) REGQ(vector<i16>) REGQ(vector<u32>) REGQ(vector<i64>) REGQ(vector<char>) REGQ(vector<float>)
   REGQ(vector<EI16>) REGQ(vector<string>) REGT(vector<i8>) REGT(vector<u16>) REGT(vector<i32>) REGT(vector<u64>)
@@ -121,6 +132,7 @@ inline void register_universe(std::vector<TypeOps>& l) {
   REGT(T1<char>) REGT(T1<u32>) REGT(T2<i64, i64>) REGT(T3<float, vector<u8>>)
   // entries whose value has a length prefix that changes class between element count and byte count
   REGQ(T1<std::u16string>) REGQ(T2<std::u32string, vector<u16>>) REGQ(T1<vector<i64>>) REGQ(T2<std::wstring, array<u32, 40>>)
+  REGQ(T1<LBC<string, 4, u8>>) REGQ(T2<LBC<float, 4, u8>, WLB<string, 4, i32>>)
   REGQ(S2<std::u16string, vector<u32>>) REGQ(vector<std::u16string>) REGQ(Optional<std::u32string>) REGQ(map<i32, std::u16string>)
   // ---------------------------------------------------------------- D2: every ordered pair of constructors
   // vector<K<..>>
